@@ -15,14 +15,8 @@ open Influx.Model.DelPred Influx.Spec.C16
     matching the series' key gives exactly the truth value of the predicate on the series. -/
 theorem C16_partial (p : Pred) (name : Bytes) (tags : Tags)
     (hp : PredWF p = true) (hs : SeriesWF name tags = true) (hk : KeyOK name tags = true) :
-    matchSeries p name tags = some (evalPred name tags p) := by
-  simp only [KeyOK, Bool.and_eq_true, Bool.not_eq_true', List.contains_eq_mem,
-    decide_eq_false_iff_not] at hk
-  obtain ⟨⟨⟨hnt, h61⟩, htags⟩, hsep⟩ := hk
-  obtain ⟨m, hm, hinv⟩ := newMatcher_spec p
-  obtain ⟨m', hm', _⟩ := matches_spec p m hinv (seriesKey name tags) name tags
-    (cutFieldSep_of_not_hasSep _ hsep) hp hs hnt h61 htags
-  simp [matchSeries, hm, hm']
+    matchSeries p name tags = some (evalPred name tags p) :=
+  matchSeries_spec p name tags hp hs hk
 
 /-- The matcher is reused across keys (generation-stamped caches, `Reset`): whatever series it
     has been asked about before, the next answer inside the domain is exact — also on a composite
